@@ -48,18 +48,25 @@ def run(ctx):
         hdr = gen.header(rng, n=rng.choice([1, 2, 3]))
         T = gen.table(rng, hdr, default_pool=CELLS, maxn=7, ragged=0.3)
         f = rng.choice(hdr) if rng.random() < 0.8 else hdr.index(rng.choice(hdr))
+        refs = REFS
+        if len(hdr) >= 2 and rng.random() < 0.3:
+            # a compound field: the value tested is the tuple of its cells, each absent cell read as `missing`
+            f = tuple(rng.sample(hdr, 2))
+            ix = [hdr.index(x) for x in f]
+            keys = [tuple((r[i] if i < len(r) else None) for i in ix) for r in T[1:]]
+            refs = [k for k in keys if not any(isinstance(c, list) for c in k)][:4] + [(1, None), (None, None), ('a', 2), (1, 'a'), None, 1]
         fk = util.enc_key(f)
         tt = proto.enc_table(T)
         base = {'table': repr(T), 'field': repr(f)}
         nt = len(T) > 2
         for pn, fname in UNARY.items():
-            ref = rng.choice(REFS)
+            ref = rng.choice(refs)
             compl = rng.random() < 0.3
             jobs.append((fname, 'select %s N %s %s %s %s' % (fk, proto.enc_bool(compl), pn, proto.enc(ref), tt),
                          lambda T=T, f=f, ref=ref, compl=compl, fname=fname: getattr(etl, fname)(T, f, ref, complement=compl),
                          dict(base, ref=repr(ref), complement=compl), nt))
         for pn, fname in BINARY.items():
-            a, b = rng.choice(REFS), rng.choice(REFS)
+            a, b = rng.choice(refs), rng.choice(refs)
             compl = rng.random() < 0.3
             jobs.append((fname, 'select %s N %s %s %s %s %s' % (fk, proto.enc_bool(compl), pn, proto.enc(a), proto.enc(b), tt),
                          lambda T=T, f=f, a=a, b=b, compl=compl, fname=fname: getattr(etl, fname)(T, f, a, b, complement=compl),
@@ -70,7 +77,7 @@ def run(ctx):
                          lambda T=T, f=f, compl=compl, fname=fname: getattr(etl, fname)(T, f, complement=compl),
                          dict(base, complement=compl), nt))
         for pn, fname in MEMBER.items():
-            vs = [rng.choice(REFS) for _ in range(rng.choice([0, 1, 2, 3]))]
+            vs = [rng.choice(refs) for _ in range(rng.choice([0, 1, 2, 3]))]
             vs = [v for v in vs if not isinstance(v, list)]
             compl = rng.random() < 0.3
             jobs.append((fname, 'select %s N %s %s %s %s' % (fk, proto.enc_bool(compl), pn, proto.enc(tuple(vs)), tt),
@@ -78,7 +85,7 @@ def run(ctx):
                          dict(base, values=repr(vs), complement=compl), nt))
         # select with predicate + missing, both polarities
         missing = rng.choice([None, 'NA', 0])
-        ref = rng.choice(REFS)
+        ref = rng.choice(refs)
         for compl in (False, True):
             jobs.append(('select', 'select %s %s %s eq %s %s' % (fk, proto.enc(missing), proto.enc_bool(compl), proto.enc(ref), tt),
                          lambda T=T, f=f, ref=ref, compl=compl, missing=missing: etl.select(T, f, lambda v: v == ref, complement=compl, missing=missing),
@@ -166,6 +173,22 @@ def run(ctx):
                                       {'table': repr(T), 'fields': repr(fields), 'search': repr(s1), 'complement': repr(s2)})
                 except Exception as e:   # noqa
                     ctx.spec_fail('search|raises', 'search raised %r' % e, {'table': repr(T), 'field': repr(fields)})
+        # facet on a compound key: ragged rows belong to the facet of their padded key
+        if len(hdr) >= 2:
+            ff = tuple(hdr[:2])
+            try:
+                if all(not isinstance(c, list) for r in T[1:] for c in r):
+                    fc = etl.facet(T, ff)
+                    tot = Counter()
+                    for t_ in fc.values():
+                        tot += Counter(list(t_)[1:])
+                    ctx.case(('facet-compound', repr(T)) if len(T) > 2 else None)
+                    ctx.count('op:facet-compound')
+                    if tot != Counter(rows):
+                        ctx.spec_fail('facet|partition|compound-key', 'the tables of facet on a compound key do not partition the input',
+                                      {'table': repr(T), 'field': repr(ff), 'facets': repr({k: list(v)[1:] for k, v in fc.items()})})
+            except Exception as e:   # noqa
+                ctx.spec_fail('facet|raises', 'facet raised %r' % e, {'table': repr(T), 'field': repr(ff)})
         # facet
         try:
             hashable = all(not isinstance((r[hdr.index(f)] if hdr.index(f) < len(r) else None), list) for r in T[1:])
